@@ -15,7 +15,7 @@
    unguarded statements are refuted: exogenous_otherwise_refuted, conflict_rejected_refuted). *)
 From Coq Require Import String Ascii List Bool ZArith.
 Import ListNotations.
-Require Import PyBase Symbols Merge ParseEq ParseModel Classify ClassifyFacts ClassifyProgram ClassifyClass ClassifyMain ClassifyRange ClassifyScript ClassifyEndToEnd ClassifyExamples.
+Require Import PyBase Symbols Merge ParseEq ParseModel Classify ClassifyFacts ClassifyProgram ClassifyClass ClassifyMain ClassifyRange ClassifyScript ClassifyEndToEnd ClassifyGuardExact ClassifyExamples.
 Open Scope string_scope.
 
 (* Every script: whatever the syntax-check oracle `chk`, a script that the parser model accepts IS a program (its
@@ -227,3 +227,22 @@ Theorem C03_double_definition_gives_ParserError : forall p a b, wf_program p = t
   program_symbols p = Raise ParserError.
 Proof. exact double_definition_gives_ParserError. Qed.
 Print Assumptions C03_double_definition_gives_ParserError.
+
+(* the guard of finding #19 is EXACT: it is a decidable (computable) predicate; when it holds every classified name of the
+   script is in NAMES; when it fails on an accepted program, some name mentioned otherwise than as a function is in none of
+   the four lists (every symbol of that name is a FUNCTION symbol) *)
+Theorem C03_guard_necessary : forall p syms, program_symbols p = Ret syms -> fn_guard p = false ->
+  exists x, existsb (nonfn_named x) (mentions p) = true /\ only_fn syms x /\
+            forall o c, class_of syms o = Ret c -> ~ In (Some x) (c_names c).
+Proof. exact guard_necessary. Qed.
+Print Assumptions C03_guard_necessary.
+Theorem C03_guard_exact : forall p syms o c, wf_program p = true -> program_symbols p = Ret syms -> class_of syms o = Ret c ->
+  (fn_guard p = true -> forall x, In x (script_names p) -> classified p x = true -> In (Some x) (c_names c)) /\
+  (fn_guard p = false -> exists x, existsb (nonfn_named x) (mentions p) = true /\ ~ In (Some x) (c_names c)).
+Proof. exact guard_exact. Qed.
+Print Assumptions C03_guard_exact.
+(* on script text: script_guard computes it, and is defined for every accepted script *)
+Theorem C03_script_guard_defined : forall chk check_syntax model syms,
+  parse_model_M chk check_syntax model = POk syms -> exists b, script_guard model = Some b.
+Proof. exact script_guard_defined. Qed.
+Print Assumptions C03_script_guard_defined.
